@@ -20,6 +20,7 @@ def run_one(patch):
         if m and m.group(1) in meta:
             meta[m.group(1)] = m.group(2).strip()
     name = os.path.basename(patch)
+    suite = ""
     scratch = tempfile.mkdtemp(prefix="ivg-mut-", dir="/tmp")
     wt = os.path.join(scratch, "repo")
     out = os.path.join(scratch, "out")
@@ -31,7 +32,10 @@ def run_one(patch):
         if meta["tests"] != "skip":
             r = subprocess.run("go build ./... && go test -vet=off -count=1 ./...", shell=True, cwd=wt, env=ENV, capture_output=True, text=True)
             if r.returncode != 0:
-                return name, "BROKEN", "mutant does not build or pass the test suite: " + (r.stdout + r.stderr)[-400:]
+                b = subprocess.run("go build ./...", shell=True, cwd=wt, env=ENV, capture_output=True, text=True)
+                if b.returncode != 0:
+                    return name, "BROKEN", "mutant does not build: " + b.stderr[-300:]
+                suite = " [also killed by the test suite]"
         env = dict(ENV, VERIF_REPO=wt, VERIF_OUT=out)
         r = subprocess.run([os.path.join(VERIF, "bin", "govc"), "check", meta["property"]], env=env, capture_output=True, text=True, cwd=VERIF)
         viol = [l for l in r.stdout.splitlines() if l.startswith("VIOLATION") or l.startswith("failed obligation")]
@@ -43,7 +47,7 @@ def run_one(patch):
             ok = any(meta["expect"] in l for l in viol)
             if not ok:
                 return name, "WRONG-OBLIGATION", "; ".join(viol)[:600]
-        return name, "ok" if ok else "SURVIVED", ("; ".join(viol) or r.stdout[-300:] + r.stderr[-300:])[:600]
+        return name, "ok" if ok else "SURVIVED", (suite + " " + ("; ".join(viol) or r.stdout[-300:] + r.stderr[-300:]))[:400]
     finally:
         subprocess.run(["git", "-C", REPO, "worktree", "remove", "--force", wt], capture_output=True)
         shutil.rmtree(scratch, ignore_errors=True)
